@@ -13,7 +13,8 @@ from sim import kernel, faults
 from sim.runner import RunResult
 
 ID = "C07"
-RULE = ("plan = (base Schema|DataClass, subset of fields required int / optional str / List[Leaf] with factory / "
+RULE = ("plan = (base Schema|DataClass, fields declared in the class or inherited from a base class with other options, "
+        "mode-dependent required field with the mode set on the class or by runtime options, subset of fields required int / optional str / List[Leaf] with factory / "
         "constrained int / immutable int / aliased+alias_from(+case-insensitive) int / no_output int / optional Leaf / "
         "read-only @property depending on two fields / writable @property with a dependant property; class options "
         "addition None|True|False|Leaf, ignore_delete_nonexistent, immutable; 6-20 operations setattr/delattr/"
@@ -51,11 +52,12 @@ FIELD_INFO = {
     "ali":   {"att": "ali", "name": "AL", "keys": ["AL", "ali", "al2"], "type": "int"},
     "hid":   {"att": "hid", "name": "hid", "keys": ["hid"], "type": "int"},
     "lf":    {"att": "lf", "name": "lf", "keys": ["lf"], "type": "leaf"},
+    "mreq":  {"att": "mreq", "name": "mreq", "keys": ["mreq"], "type": "int"},
     "total": {"att": "total", "name": "total", "keys": ["total"], "type": "int"},
     "w":     {"att": "w", "name": "w", "keys": ["w"], "type": "posint"},
     "w2":    {"att": "w2", "name": "w2", "keys": ["w2"], "type": "int"},
 }
-ORDER = ["req", "opt", "its", "pos", "fin", "ali", "hid", "lf", "total", "w"]
+ORDER = ["req", "opt", "its", "pos", "fin", "ali", "hid", "lf", "mreq", "total", "w"]
 
 
 def source(plan):
@@ -68,9 +70,17 @@ def source(plan):
     for k in ("ignore_delete_nonexistent", "immutable"):
         if o.get(k):
             okw.append(f"{k}=True")
+    if plan.get("mode") == "class":
+        okw.append("mode='w'")
     L = ["from utype import Schema, DataClass, Field, Options", "from typing import List, Optional",
-         "from sim.faults import Leaf, hook_point", "",
-         f"class M({base}):", f"    __options__ = Options({', '.join(okw)})"]
+         "from sim.faults import Leaf, hook_point", ""]
+    if plan.get("inherit"):
+        # the fields live in a base class with default options; the class under test only brings its options
+        L += [f"class M({base}):", "    pass"]
+        tail = ["", "class B(M):", f"    __options__ = Options({', '.join(okw)})"]
+    else:
+        L += [f"class M({base}):", f"    __options__ = Options({', '.join(okw)})"]
+        tail = []
     if "req" in fs:
         L.append("    req: int")
     if "opt" in fs:
@@ -87,6 +97,8 @@ def source(plan):
         L.append("    hid: int = Field(no_output=True, default=0)")
     if "lf" in fs:
         L.append("    lf: Leaf = Field(required=False)")
+    if "mreq" in fs:
+        L.append("    mreq: int = Field(required='w', default=5)")
     if "total" in fs:
         L += ["    @property", "    @Field(dependencies=['req', 'pos'])", "    def total(self) -> int:",
               "        return self.req * 10 + self.pos"]
@@ -95,7 +107,13 @@ def source(plan):
               "    @w.setter", "    def w(self, v: int = Field(ge=0, required=False)):",
               "        hook_point('set_w')", "        self._w = v",
               "    @property", "    @Field(dependencies=w)", "    def w2(self) -> int:", "        return self._w * 2"]
-    return "\n".join(L) + "\n"
+    if plan.get("inherit") and L[-1] == "    pass" and len(fs) > 0:
+        pass
+    src = "\n".join(L + tail) + "\n"
+    if plan.get("inherit"):
+        # class under test is the subclass: rename so that the harness keeps using the name M
+        src = src.replace("class M(", "class Base_(", 1).replace("class B(M):", "class M(Base_):", 1).replace("    pass\n", "", 1)
+    return src
 
 
 # ----------------------------------------------------------------------------- generation
@@ -151,14 +169,16 @@ def generate(rng, tier):
         fs.append("pos")
     fs = [k for k in ORDER if k in fs]
     plan = {"prop": ID, "base": base, "fields": fs, "ci": rng.random() < 0.4,
-            "options": {}}
+            "options": {}, "inherit": rng.random() < 0.3, "mode": None}
+    if "mreq" in fs:
+        plan["mode"] = rng.choice([None, "class", "runtime"]) if base == "schema" else rng.choice([None, "class"])
     o = plan["options"]
     r = rng.random()
     if r < 0.6:
         o["addition"] = rng.choice([True, False, "leaf"])
     if rng.random() < 0.3:
         o["ignore_delete_nonexistent"] = True
-    if rng.random() < 0.04:
+    if rng.random() < (0.12 if plan["inherit"] else 0.04):
         o["immutable"] = True
     pool = _Pool()
     init = {"req": rng.choice([1, "2"])}
@@ -173,6 +193,8 @@ def generate(rng, tier):
             init["its"] = [{"$r": pool.next()}]
         if k == "w" and rng.random() < 0.5:
             init["w"] = 3
+    if "mreq" in fs and (plan["mode"] or rng.random() < 0.5):
+        init["mreq"] = rng.choice([6, "7"])
     plan["init"] = init
     init_pids = list(pool.used)
     targets = [k for k in fs] + (["w2"] if "w" in fs else [])
@@ -333,7 +355,7 @@ def check_invariants(plan, inst, initial, res, opname, field, current=True):
         if not conforms(k, val):
             out.append(("I1", k, f"attribute view holds non-conforming {k}={val!r}"))
     # I2 required present
-    for k in ("req", "fin"):
+    for k in ("req", "fin") + (("mreq",) if plan.get("mode") else ()):
         if k in fs:
             if k not in v.keys:
                 out.append(("I2", k, f"required field {k} is gone from the data"))
@@ -438,7 +460,14 @@ def execute(plan):
     mod = kernel.make_module("verif_c07_mod", source(plan))
     M = mod.M
     try:
-        inst = M(**{k: _val(v) for k, v in plan["init"].items()})
+        if plan.get("mode") == "runtime":
+            from utype import Options
+            okw = {k: v for k, v in plan["options"].items()}
+            if okw.get("addition") == "leaf":
+                okw["addition"] = faults.Leaf
+            inst = M.__from__({k: _val(v) for k, v in plan["init"].items()}, options=Options(mode="w", **okw))
+        else:
+            inst = M(**{k: _val(v) for k, v in plan["init"].items()})
     except Exception as e:  # noqa
         raise kernel.HarnessError(f"C07 world: initial instance rejected: {type(e).__name__}: {e}")
     faults.set_plan(plan["faults"])
@@ -515,7 +544,7 @@ def execute(plan):
         if res.violations:
             break
     if res.nontrivial:
-        res.nontrivial = kernel.digest_of([plan["base"], plan["fields"], plan["options"],
+        res.nontrivial = kernel.digest_of([plan["base"], plan["fields"], plan["options"], plan.get("inherit"), plan.get("mode"),
                                            [[o["op"], o.get("key") or o.get("field")] for o in plan["ops"]]])
     return res
 
@@ -534,6 +563,14 @@ def shrink(plan):
     if plan.get("ci"):
         p = copy.deepcopy(plan)
         p["ci"] = False
+        yield p
+    if plan.get("inherit"):
+        p = copy.deepcopy(plan)
+        p["inherit"] = False
+        yield p
+    if plan.get("mode") == "runtime":
+        p = copy.deepcopy(plan)
+        p["mode"] = "class"
         yield p
     used = set()
     for o in plan["ops"]:
